@@ -365,3 +365,6 @@ def run(ctx):
     r3_commit_is_hash_of_bytes(ctx)
     r4_no_mut_tree_api(ctx)
     r5_backend_dispatch(ctx)
+    if ctx.tier == "thorough" and ctx.config == "workspace":
+        from .. import witness
+        witness.run(ctx, 'C06-W', 'the commit tree cannot be mutated through the public EventLog API', {'TreeIsReadOnly': '`log.tree().commit()` through &L'})
